@@ -12,6 +12,9 @@
     SPECFAIL line=<n> case=<k> clause=<name>
     BADLINE line=<n>
     STATS cases=.. steps=.. nontrivial=.. <branch histogram>
+  The order reported on the T line is tried first; where the observation differs, every arrangement of every zone's
+  endpoint set is tried (the code may iterate them in any order: allowed set, not single answer) and the case counts as
+  `order_free` when one explains it; only otherwise a MISMATCH is printed.
   `case` numbers the T lines (a case = one node identity with its R lines); `steps` counts the R lines.
 
   With the argument `sim` the driver instead runs the NETWORK model on every topology of the input (T lines only):
@@ -81,6 +84,21 @@ def orderOk (t : TopoTxt) : Bool :=
     let members := (List.range t.zoneOf.size).filter (fun e => t.zoneOf[e]? == some z)
     sortNat (match t.order[z]? with | some l => l | none => []) == members)
 
+def insertAll (x : Nat) : List Nat → List (List Nat)
+  | [] => [[x]]
+  | y :: ys => (x :: y :: ys) :: (insertAll x ys).map (y :: ·)
+
+def perms : List Nat → List (List Nat)
+  | [] => [[]]
+  | x :: xs => (perms xs).flatMap (insertAll x)
+
+/-- every arrangement of every zone's endpoint set (the code is free to iterate a `std::set<Endpoint::Ptr>` - or a
+    rewritten container - in any order: DESIGN.md 0.3 "allowed sets"); capped -/
+def allOrders (t : TopoTxt) : List (Array (List Ep)) :=
+  let step := fun (acc : List (Array (List Ep))) (l : List Ep) =>
+    ((perms l).flatMap (fun p => acc.map (fun a => a.push p))).take 20000
+  t.order.toList.foldl step [#[]]
+
 def kvOf (ws : List String) (k : String) : Option String :=
   (ws.find? (fun w => w.startsWith (k ++ "="))).map (fun w => (w.drop (k.length + 1)).toString)
 
@@ -107,6 +125,7 @@ structure DSt where
   masterCases : Nat := 0
   originZoneSet : Nat := 0
   twoConn : Nat := 0
+  orderFree : Nat := 0           -- cases that agree with the model under another arrangement of the endpoint sets only
   dSteps : Nat := 0
   dAccepted : Nat := 0
   dDiscarded : Nat := 0
@@ -176,18 +195,25 @@ def handle (d : DSt) (n : Nat) (line : String) : IO DSt := do
         let mut d := { d with steps := d.steps + 1 }
         let mSent := sortNat r.sent
         let mSkipped := sortNat r.skipped
-        if mSent != sent then
-          IO.println s!"MISMATCH line={n} case={d.caseNo} op=sent impl={showList sent} model={showList mSent}"
-          d := { d with mismatches := d.mismatches + 1 }
-        if mSkipped != skipped then
-          IO.println s!"MISMATCH line={n} case={d.caseNo} op=skipped impl={showList skipped} model={showList mSkipped}"
-          d := { d with mismatches := d.mismatches + 1 }
-        if r.persist != persist then
-          IO.println s!"MISMATCH line={n} case={d.caseNo} op=persist impl={showBool persist} model={showBool r.persist}"
-          d := { d with mismatches := d.mismatches + 1 }
-        if r.originZone != obsOz then
-          IO.println s!"MISMATCH line={n} case={d.caseNo} op=originzone impl={showOpt obsOz} model={showOpt r.originZone}"
-          d := { d with mismatches := d.mismatches + 1 }
+        let connF := fun (_ : Ep) (e : Ep) => match connA[e]? with | some c => c == '1' || c == '2' | none => false
+        let agrees := fun (r : Result) => sortNat r.sent == sent && sortNat r.skipped == skipped && r.persist == persist && r.originZone == obsOz
+        if !agrees r then
+          -- the model returns the allowed set: some arrangement of the endpoint sets must explain the observation
+          if (allOrders t).any (fun ord => agrees (relay ({ t with order := ord }.topo connF) self o oz log)) then
+            d := { d with orderFree := d.orderFree + 1 }
+          else
+            if mSent != sent then
+              IO.println s!"MISMATCH line={n} case={d.caseNo} op=sent impl={showList sent} model={showList mSent}"
+              d := { d with mismatches := d.mismatches + 1 }
+            if mSkipped != skipped then
+              IO.println s!"MISMATCH line={n} case={d.caseNo} op=skipped impl={showList skipped} model={showList mSkipped}"
+              d := { d with mismatches := d.mismatches + 1 }
+            if r.persist != persist then
+              IO.println s!"MISMATCH line={n} case={d.caseNo} op=persist impl={showBool persist} model={showBool r.persist}"
+              d := { d with mismatches := d.mismatches + 1 }
+            if r.originZone != obsOz then
+              IO.println s!"MISMATCH line={n} case={d.caseNo} op=originzone impl={showOpt obsOz} model={showOpt r.originZone}"
+              d := { d with mismatches := d.mismatches + 1 }
         if ts != "1" then
           IO.println s!"MISMATCH line={n} case={d.caseNo} op=ts impl={ts} model=1"
           d := { d with mismatches := d.mismatches + 1 }
@@ -238,24 +264,32 @@ def handle (d : DSt) (n : Nat) (line : String) : IO DSt := do
         let msg : Msg := ⟨self, frm, ozf⟩
         -- the model's `deliver` on a network whose only in-flight message is `msg`
         let net : Net := { inflight := [msg], processed := [], accepted := [], persisted := [], discarded := [] }
-        let net' := deliver T oz net 0
-        let mAcc := net'.processed.length
-        let mSent := sortNat (net'.inflight.map (·.to))
-        let mPersist := !net'.persisted.isEmpty
-        let mOz : Option Zone := match net'.inflight with | m' :: _ => m'.originZone | [] => (if mAcc == 1 then (originOf T msg).fromZone else none)
+        let connF := fun (_ : Ep) (e : Ep) => match connA[e]? with | some c => c == '1' || c == '2' | none => false
+        let outcome := fun (T : Topo) =>
+          let net' := deliver T oz net 0
+          let mAcc := net'.processed.length
+          let mOz : Option Zone := match net'.inflight with
+            | m' :: _ => m'.originZone
+            | [] => (if mAcc == 1 then (originOf T msg).fromZone else none)
+          (mAcc, sortNat (net'.inflight.map (·.to)), !net'.persisted.isEmpty, mOz)
+        let (mAcc, mSent, mPersist, mOz) := outcome T
         let mut d := { d with dSteps := d.dSteps + 1, steps := d.steps + 1 }
-        if mAcc != acc then
-          IO.println s!"MISMATCH line={n} case={d.caseNo} op=accept impl={acc} model={mAcc}"
-          d := { d with mismatches := d.mismatches + 1 }
-        if mSent != sent then
-          IO.println s!"MISMATCH line={n} case={d.caseNo} op=step-sent impl={showList sent} model={showList mSent}"
-          d := { d with mismatches := d.mismatches + 1 }
-        if mPersist != persist then
-          IO.println s!"MISMATCH line={n} case={d.caseNo} op=step-persist impl={showBool persist} model={showBool mPersist}"
-          d := { d with mismatches := d.mismatches + 1 }
-        if mOz != obsOz then
-          IO.println s!"MISMATCH line={n} case={d.caseNo} op=step-originzone impl={showOpt obsOz} model={showOpt mOz}"
-          d := { d with mismatches := d.mismatches + 1 }
+        if (mAcc, mSent, mPersist, mOz) != (acc, sent, persist, obsOz) then
+          if (allOrders t).any (fun ord => outcome ({ t with order := ord }.topo connF) == (acc, sent, persist, obsOz)) then
+            d := { d with orderFree := d.orderFree + 1 }
+          else
+            if mAcc != acc then
+              IO.println s!"MISMATCH line={n} case={d.caseNo} op=accept impl={acc} model={mAcc}"
+              d := { d with mismatches := d.mismatches + 1 }
+            if mSent != sent then
+              IO.println s!"MISMATCH line={n} case={d.caseNo} op=step-sent impl={showList sent} model={showList mSent}"
+              d := { d with mismatches := d.mismatches + 1 }
+            if mPersist != persist then
+              IO.println s!"MISMATCH line={n} case={d.caseNo} op=step-persist impl={showBool persist} model={showBool mPersist}"
+              d := { d with mismatches := d.mismatches + 1 }
+            if mOz != obsOz then
+              IO.println s!"MISMATCH line={n} case={d.caseNo} op=step-originzone impl={showOpt obsOz} model={showOpt mOz}"
+              d := { d with mismatches := d.mismatches + 1 }
         if ts != "1" || old != "0" || bad != "0" then
           IO.println s!"MISMATCH line={n} case={d.caseNo} op=step-queue impl=ts:{ts},old:{old},bad:{bad} model=ts:1,old:0,bad:0"
           d := { d with mismatches := d.mismatches + 1 }
@@ -375,4 +409,4 @@ def main (args : List String) : IO Unit := do
     IO.println s!"SIMSTATS topologies={st.topos} runs={st.runs} deliveries={st.deliveries} fails={st.fails} complete_checked={st.complete} incomplete={st.incomplete} beyond_scope_topologies={st.beyondScope} beyond_scope_duplicates={st.beyondScopeDups} max_processed={st.maxProcessed} nontrivial={st.nontrivial}"
   | _ =>
     let d ← foldLines stdin handle ({} : DSt)
-    IO.println s!"STATS cases={d.caseNo} steps={d.steps} nontrivial={d.nontrivial} sends={d.sends} skips={d.skips} persisted={d.persisted} no_target={d.noTarget} b_self={d.bSelf} b_disconnected={d.bDisc} b_second_endpoint={d.bRelayed} b_origin_client={d.bClient} b_origin_zone={d.bFromZone} b_not_master={d.bMaster} b_sent={d.bSent} unrelated_zone={d.unrelated} global_object={d.globalObj} as_master={d.masterCases} origin_zone_set={d.originZoneSet} newest_of_two={d.twoConn} net_steps={d.dSteps} net_accepted={d.dAccepted} net_discarded={d.dDiscarded} net_origin_from_field={d.dOriginFromField} mismatches={d.mismatches} specfails={d.specfails}"
+    IO.println s!"STATS cases={d.caseNo} steps={d.steps} nontrivial={d.nontrivial} sends={d.sends} skips={d.skips} persisted={d.persisted} no_target={d.noTarget} b_self={d.bSelf} b_disconnected={d.bDisc} b_second_endpoint={d.bRelayed} b_origin_client={d.bClient} b_origin_zone={d.bFromZone} b_not_master={d.bMaster} b_sent={d.bSent} unrelated_zone={d.unrelated} global_object={d.globalObj} as_master={d.masterCases} origin_zone_set={d.originZoneSet} newest_of_two={d.twoConn} net_steps={d.dSteps} net_accepted={d.dAccepted} net_discarded={d.dDiscarded} net_origin_from_field={d.dOriginFromField} order_free={d.orderFree} mismatches={d.mismatches} specfails={d.specfails}"
